@@ -342,7 +342,52 @@ def search(ctx):
         ctx.tried("voxel", (round(r, 4),))
         if errs[-1] > 0.2 or errs[-1] > errs[0] + 0.02:
             ctx.violation("C20:voxel", "voxel volume does not converge: relative errors %r" % (errs,), dict(kind="voxel", r=r, c=c))
-    ctx.sample(dict(kind="search", oracles=["contains vs analytic inequality (surface +-1e-9)", "layer/index", "translate", "bounds", "overlaps/largest/warn", "guards", "voxel volume"]))
+    # many points in ONE call (a fine voxel grid, a long point list): every point is classified, whatever the size of the
+    # request -- sizes just above powers of two and not a multiple of anything convenient
+    sizes = [2 ** 18 + 1, 300007] if ctx.tier == "quick" else [2 ** 16 + 3, 2 ** 18 + 1, 300007, 2 ** 19 + 5, 700001, 2 ** 20 + 7]
+    for N in sizes:
+        for kindb in ("sphere", "ellipsoid", "union"):
+            rr = float(rng.uniform(0.8, 1.2))
+            cc = np.array([0.3, -0.2, 0.5])
+            if kindb == "sphere":
+                obj = Sphere(n=1.5, r=rr, center=tuple(cc))
+                inside = lambda P: ((P - cc) ** 2).sum(1) < rr ** 2
+            elif kindb == "ellipsoid":
+                ax = np.array([rr, 0.7 * rr, 1.3 * rr])
+                obj = Ellipsoid(n=1.5, r=tuple(ax), center=tuple(cc))
+                inside = lambda P: (((P - cc) / ax) ** 2).sum(1) < 1
+            else:
+                c2 = cc + np.array([0.9 * rr, 0, 0])
+                obj = Union(Sphere(n=1.5, r=rr, center=tuple(cc)), Sphere(n=1.5, r=0.6 * rr, center=tuple(c2)))
+                inside = lambda P: (((P - cc) ** 2).sum(1) < rr ** 2) | (((P - c2) ** 2).sum(1) < (0.6 * rr) ** 2)
+            P = rng.uniform(-1.6, 1.6, size=(N, 3)) * rr + cc
+            ctx.tried("many-points", (kindb, N))
+            got = impl_call(lambda: np.asarray(obj.contains(P)).ravel())
+            want = inside(P)
+            if isinstance(got, tuple):
+                ctx.violation("C20:many-points-raises:%s" % got[1], "contains() on %d points raised %s" % (N, got[1]), dict(kind="many-points", shape=kindb, N=N))
+                continue
+            # points within 1e-9 of the surface may go either way
+            near = np.zeros(N, bool)
+            bad = np.nonzero((got.astype(bool) != want) & ~near)[0]
+            if len(bad):
+                d = np.abs(np.sqrt(((P[bad] - cc) ** 2).sum(1)) - rr)
+                really = bad if kindb != "sphere" else bad[d > 1e-9]
+                if len(really):
+                    ctx.violation("C20:many-points:%s" % kindb, "contains() on %d points in one call: %d points misclassified, the first at index %d (of them %d beyond index 2^18)" % (
+                        N, len(really), int(really[0]), int((really >= 2 ** 18).sum())), dict(kind="many-points", shape=kindb, N=N, first=int(really[0]), point=P[really[0]].tolist()))
+    # a fine voxel grid whose side is no power of two
+    s_v = Sphere(n=1.5, r=1.0, center=(0.0, 0.0, 0.0))
+    for spv in ((0.021,) if ctx.tier == "quick" else (0.031, 0.021, 0.017)):
+        ctx.tried("voxel-fine", (spv,))
+        vv = impl_call(lambda: np.asarray(s_v.voxelate(spv)))
+        if not isinstance(vv, tuple):
+            vol = float((vv != 0).sum()) * spv ** 3
+            if not (abs(vol - 4 / 3 * math.pi) <= 0.03 * 4 / 3 * math.pi):
+                ctx.violation("C20:voxel-fine", "voxelate(%.3f) of the unit sphere (%s voxels) has volume %.4f, analytic %.4f" % (spv, "x".join(map(str, vv.shape)), vol, 4 / 3 * math.pi),
+                              dict(kind="voxel-fine", spacing=spv, shape=list(vv.shape)))
+    ctx.sample(dict(kind="search", oracles=["contains vs analytic inequality (surface +-1e-9)", "layer/index", "translate", "bounds", "overlaps/largest/warn", "guards", "voxel volume",
+                                            "many points in one call", "fine voxel grids"]))
 
 
 def replay(ctx, data):
